@@ -236,6 +236,10 @@ VNow(e) ==
        \cup (IF e.a.via = "utc" THEN (IF UdtInv(o.dt) THEN {} ELSE {"C14-dtinv"})
              ELSE (IF DtInv(o.dt) THEN {} ELSE {"C14-dtinv"})
                   \cup (IF o.dt \in Localtime(vZone, WToCDS(o.dt.u), o.dt.ns).ok THEN {} ELSE {"wrong-value"}))
+       \* find_current_local_time_type (when the harness holds an owned zone): the type the zone prescribes at one of the two clock readings
+       \cup (IF o.current_type = <<>> THEN {}
+             ELSE IF o.current_type[1] \in (TypeAt(vZone, WToCDS(Split(o.t0).q)).types \cup TypeAt(vZone, WToCDS(Split(o.t1).q)).types) THEN {}
+             ELSE {"current-type-not-the-zone's"})
 
 \* ---- the algorithm layer (Algo.tla) as a second, implementation-shaped oracle ----
 \* "the result equals what the walk written in the shape of the Rust returns": NoCmp where no comparison is defined
